@@ -155,6 +155,37 @@ def run(model, col, tier):
         ctext = (canon(b), canon(e))
     else:
         ctext = None
+    if not good:
+        # optional parameters that no call site passes take their default: read the helper along the path that follows from
+        # `<param> is None`, with the locals that path binds
+        sites_gl = [c for c in ast.walk(pc.node) if isinstance(c, ast.Call) and last_attr(c) == "__GetLocation"]
+        npos = len(gl.args.args) - 1 - len(gl.args.defaults)
+        opt = [a.arg for a in gl.args.args[1 + npos:]]
+        unpassed = {o for i, o in enumerate(opt) if not any(len(c.args) > npos + i or any(k.arg == o for k in c.keywords) for c in sites_gl)
+                    and isinstance(gl.args.defaults[i], ast.Constant) and gl.args.defaults[i].value is None}
+
+        def fold_gl(t_):
+            if isinstance(t_, ast.Compare) and len(t_.ops) == 1 and isinstance(t_.left, ast.Name) and t_.left.id in unpassed and isinstance(t_.comparators[0], ast.Constant) and t_.comparators[0].value is None:
+                return isinstance(t_.ops[0], ast.Is)
+            return None
+
+        for evs_, st_ in paths(gl.body, fold=fold_gl):
+            if st_ != "return":
+                continue
+            penv = {}
+            for e_ in evs_:
+                if e_.kind == "stmt" and isinstance(e_.node, ast.Assign) and len(e_.node.targets) == 1 and isinstance(e_.node.targets[0], ast.Name):
+                    penv[e_.node.targets[0].id] = resolve(e_.node.value, {k_: v_ for k_, v_ in penv.items() if k_ != e_.node.targets[0].id})
+            rv_ = resolve(evs_[-1].node.value, penv)
+            sp_ = rv_.args[0] if isinstance(rv_, ast.Call) and last_attr(rv_) == "Location" and rv_.args else None
+            if isinstance(sp_, ast.Tuple) and len(sp_.elts) == 2:
+                b, e = sp_.elts
+                good = canon(b) == f"+{pn}.lexpos(+{which})" and sorted(canon(e).split(" ")) == sorted([f"+len(+{pn}[{which}])", f"+{pn}.lexpos(+{which})"])
+                ctext = (canon(b), canon(e))
+            else:
+                good = False
+            if not good:
+                break
     col.check(good, "R20.1", f"{PARSER}::NslParser.__GetLocation span", "span = (lexpos(k), lexpos(k) + len(p[k]))",
               f"span is {ctext}; expected (lexpos(k), lexpos(k) + len(p[k])) of the same symbol", PARSER, gl)
     # what the helper returns on every path is that token span and nothing merged into it: at parse time composite nodes still
@@ -245,6 +276,8 @@ def run(model, col, tier):
         return bool(t_.value) if isinstance(t_, ast.Constant) else None
 
     fns20 = [vg] + [n for n in ast.walk(vg) if isinstance(n, ast.FunctionDef) and n is not vg]
+    # (the collecting callback may equally be a module-level function of the pass that v_Generic names)
+    fns20 += [f_ for nm_, f_ in model.file(UPD).functions.items() if any(isinstance(x, ast.Name) and x.id == nm_ for x in ast.walk(vg)) and f_ not in fns20]
     nknown = 0
     known_sites = set()
     bad_app = []
